@@ -85,6 +85,28 @@ def gather(ctx, F):
                 out.append((ctor, setops.ctor_paths(ctx, F, ctor)))
     for where, paths in C.retain_paths(ctx, F):
         out.append((where, paths))
+    # sequences of two calls on one borrowed entry handle (a handle that survives a call must stay usable)
+    for hadt, variant in c04.HANDLES.items():
+        meths = []
+        for f in F.lib_fns():
+            if f.get("impl") and F.adt_of(f["impl_self_ty"]) == hadt and f["inputs"] and F.types[f["inputs"][0]]["t"] == "ref" \
+                    and (f.get("exported") or f.get("reachable") or f["vis"] == "pub"):
+                meths.append(F.short_of[f["path"]])
+        for m1 in meths:
+            if not F.types[F.fn(m1)["inputs"][0]]["m"]:
+                continue        # a &self method cannot change the handle
+            for m2 in meths:
+                key = (F.config, "entry;%s;%s" % (m1, m2))
+                if key not in ctx._paths:
+                    def then(it, hcell, r, m2=m2):
+                        p2 = F.short[m2]
+                        params = C.fn_params(F, p2)
+                        t = F.types[params[0][1]]
+                        args = [absint.RefV(hcell, t["m"])] + [absint.unknown(it, ty, "m2." + nm) for nm, ty, _ in params[1:]]
+                        it.emit("method", name=m2)
+                        return it.run_fn(p2, args)
+                    ctx._paths[key] = absint.explore(F, None, None, {"loop_bound": 2}, program=C.entry_then(F, m1, variant, then=then))
+                out.append(("PrefixMap::entry;%s;%s" % (m1, m2), ctx._paths[key]))
     return out
 
 
